@@ -64,7 +64,7 @@ def h_center(ctx, chroms, estimator, by_chrom, skip_low, genome=None, as_name=Fa
     try:
         cna.center_all(est, by_chrom, skip_low, False, genome)
     except Exception as exc:
-        ctx.claim(False, f"center_all raised {type(exc).__name__}")
+        claim_raised(ctx, "center_all", exc)
         return
     out = col(cna, "log2")
     ctx.observe("out", out)
